@@ -60,12 +60,12 @@ def generate(chk, tier):
     import concurrent.futures as cf
     jobs = []
     for k, a in enumerate(vec_configs(tier)):
-        name = "gen_FiltersVec_%d.cfg" % k
+        name = "gen_FiltersVec_%d_%d.cfg" % (os.getpid(), k)
         with open(os.path.join(vlib.SPEC, name), "w") as f:
             f.write(vec_cfg(*a))
         jobs.append(("FiltersVec", name, "vec %s n%d..%d bs%d depth%d pal%d" % a))
     for k, a in enumerate(mat_configs(tier)):
-        name = "gen_FiltersMat_%d.cfg" % k
+        name = "gen_FiltersMat_%d_%d.cfg" % (os.getpid(), k)
         with open(os.path.join(vlib.SPEC, name), "w") as f:
             f.write(mat_cfg(*a))
         jobs.append(("FiltersMat", name, "mat %s %dx%d sq=%s b%dx%d %s pal%d" % a))
